@@ -116,6 +116,7 @@ type CSolve struct {
 	Starts int  `json:"starts"`
 	Det    bool `json:"det"`
 	Iters  int  `json:"iters"`
+	Slice  int  `json:"slice,omitempty"` // iterations per run handed out by the options factory (0 = the default factory)
 }
 
 // Profile steers which features a generated case may use.
@@ -125,6 +126,7 @@ type Profile struct {
 	Attrs, Mix, Limits, Waits, Targets, MinStops, Disable, NonMetric               bool
 	Tight                                                                           bool
 	ForceWindows                                                                    bool // windows, wait limits and a non-metric matrix always on
+	ForceUnordered                                                                  bool // at least one multi-stop unit with several allowed orders
 }
 
 func fullProfile(maxStops, maxVeh int) Profile {
@@ -189,6 +191,9 @@ func genCase(rng *rand.Rand, p Profile) *Case {
 	useCap := on(p.Capacity, 2)
 	useWin := on(p.Windows, 2) || p.ForceWindows
 	usePrec := on(p.Precedence, 2)
+	if p.ForceUnordered {
+		usePrec = true
+	}
 	useAttrs := on(p.Attrs, 3)
 	useMix := on(p.Mix, 5)
 	useTargets := on(p.Targets, 4)
@@ -277,8 +282,11 @@ func genCase(rng *rand.Rand, p Profile) *Case {
 		c.feature("precedence")
 		perm := rng.Perm(n)
 		i := 0
-		for i+1 < n && rng.Intn(3) != 0 {
+		for i+1 < n && (rng.Intn(3) != 0 || (p.ForceUnordered && i == 0)) {
 			k := 2 + rng.Intn(3)
+			if p.ForceUnordered && k < 3 {
+				k = 3 + rng.Intn(2)
+			}
 			if i+k > n {
 				k = n - i
 			}
@@ -287,6 +295,12 @@ func genCase(rng *rand.Rand, p Profile) *Case {
 			}
 			g := perm[i : i+k]
 			shape := rng.Intn(4)
+			if p.ForceUnordered {
+				shape = rng.Intn(2) // diamonds and forks: units with several allowed orders
+				if k < 4 {
+					shape = 1
+				}
+			}
 			add := func(a, b int, direct bool) {
 				c.Stops[a].Precedes = append(c.Stops[a].Precedes, CPrec{To: b, Direct: direct, AsSucceeds: rng.Intn(3) == 0})
 			}
